@@ -168,6 +168,7 @@ def run_server(cas, ops, via_service_all=False):
     """cas: list of int ports of connected peers;
     ops: ('enq', bytes, ca) | ('stk',) serviceTxPkts | ('cns', [send results]) serviceTxesAllIx
          | ('rxc', {ca: [recv results]}) handler.serviceReceivesAllIx | ('rxs',) stack.serviceReceives
+         | ('drop', ca) the peer closes: recv b'' -> cutoff, then stack.closeConnection(ca) (serviceConnects' action)
     observations: tx ops ('t', [(packed, ca)...], [(ca, [txes...], wire, cutoff)...], err)
                   rx ops ('r', [(packed, ca)... cumulative], [(ca, rxbs, cutoff)...])"""
     from ioflo.aio.tcp import serving
@@ -205,6 +206,12 @@ def run_server(cas, ops, via_service_all=False):
                     w.send_orc = list(op[1])
                     srv.handler.serviceTxesAllIx()
                     w.send_orc = []
+                elif op[0] == 'drop':
+                    if op[1] in socks and ('127.0.0.1', op[1]) in srv.handler.ixes:
+                        socks[op[1]].recv_orc = [('X',)]
+                        srv.handler.serviceReceivesAllIx()
+                        socks[op[1]].recv_orc = []
+                        srv.closeConnection(('127.0.0.1', op[1]))   # what serviceConnects does for it
                 elif op[0] == 'rxc':
                     for ca, orc in op[1].items():
                         socks[ca].recv_orc = list(orc)
